@@ -80,8 +80,26 @@ def _developer_text(prog, f, a):
     u = ir.unwrap(a)
     if isinstance(u, dict) and u.get("k") == "lit":
         return True
-    while isinstance(u, dict) and u.get("k") == "call" and u.get("this") is not None and short(u.get("name") or "") in ("begin", "end", "cbegin", "cend", "c_str", "data"):
-        u = ir.unwrap(u["this"])
+    while isinstance(u, dict):
+        if u.get("k") == "call" and u.get("this") is not None and short(u.get("name") or "") in ("begin", "end", "cbegin", "cend", "c_str", "data"):
+            u = ir.unwrap(u["this"])
+        elif u.get("k") in ("construct", "cast") and len(u.get("args", [u.get("e")])) == 1:
+            u = ir.unwrap(u["args"][0] if u.get("k") == "construct" else u.get("e"))  # iterator -> const_iterator conversion, a copy
+        elif u.get("k") == "ref" and str(u.get("decl", "")).startswith("local:"):
+            # a local that holds an iterator into / a copy of the pattern text
+            nm = u["decl"][6:]
+            init = None
+            for _, _, e in f.roots():
+                x = e["expr"]
+                if x.get("k") == "decl":
+                    for v in x.get("vars", []):
+                        if v["name"] == nm and v.get("init") is not None:
+                            init = ir.unwrap(v["init"])
+            if init is None:
+                break
+            u = init
+        else:
+            break
     kind, key, _ = lvalue_root(u) if isinstance(u, dict) else ("other", None, None)
     return kind == "field" and key[1] == "this" and f.file.endswith("format/format.hpp") and (f.cls or "").split("<")[0].endswith("formatter")
 
@@ -425,7 +443,8 @@ def run(ctx):
     ctx.rule("R04.5", "no spurious error: every parse starts from emptied value state (R14.2) and an option claims a token only under its own name or letter (R01.5, R01.7, R01.8)")
     if ctx.prop == "C04" and not getattr(ctx, "_sharing", False):
         from .common import share
-        share(ctx, "C14", ("R14.2", "R14.3"), "R04.5", "reset obligations shared with C14", 3)
+        share(ctx, "C14", ("R14.2", "R14.3", "R14.5"), "R04.5", "reset obligations shared with C14 (incl. no parser member written on the parse path: a lookup table kept across parses outlives the options it points to)", 3)
+        share(ctx, "C13", ("R13.9",), "R04.5", "derived-table obligations shared with C13", 1)
         share(ctx, "C01", ("R01.5", "R01.7", "R01.8", "R01.11"), "R04.5", "matching obligations shared with C01", 6)
         # ---- R04.6: documented conditions that must raise do raise (positional limit in every mode; syntax check for every token ahead of `--`)
         ctx.rule("R04.6", "the documented rejections `more positionals than accepted` and `malformed dash token ahead of --` are in force on every path (R12.3, R12.6 re-evaluated)")
@@ -541,17 +560,25 @@ def justify_thrower(ctx, prog, lg, fn, n, nm, env, st):
         # length_error for a request above max_size(): a literal, the size of an existing container, or a value of at most 32 bits is below it
         args = [a for a in n.get("args", []) if not (isinstance(a, dict) and a.get("k") == "defarg")]
         a0 = ir.unwrap(args[0]) if args else None
-        while isinstance(a0, dict) and a0.get("k") == "cast":
-            inner = ir.unwrap(a0.get("e"))
-            if isinstance(inner, dict) and (inner.get("bits") or 64) <= 32:
-                return True, "%s(%s): a value of %d bits is below max_size()" % (nm, fmt(a0)[:30], inner.get("bits") or 0)
-            a0 = inner
-        if isinstance(a0, dict) and a0.get("k") == "lit":
-            return True, "%s(%s): a constant" % (nm, fmt(a0))
-        if isinstance(a0, dict) and (a0.get("bits") or 64) <= 32:
-            return True, "%s(%s): a value of %d bits is below max_size()" % (nm, fmt(a0)[:30], a0.get("bits"))
-        if isinstance(a0, dict) and a0.get("k") == "call" and short(a0.get("name") or "") in ("size", "length") and a0.get("this") is not None:
-            return True, "%s(%s): the size of an existing container" % (nm, fmt(a0)[:30])
+
+        def small(x):
+            """sums and differences of constants, values of at most 32 bits and sizes of existing containers stay far below max_size()"""
+            x = ir.unwrap(x)
+            if not isinstance(x, dict):
+                return False
+            if x.get("k") == "lit":
+                return isinstance(x.get("v"), int)
+            if x.get("k") in ("cast", "paren"):
+                return small(x.get("e"))
+            if x.get("k") == "bin" and x.get("op") in ("+", "-"):
+                return small(x["l"]) and small(x["r"])
+            if x.get("k") == "call" and short(x.get("name") or "") in ("size", "length") and x.get("this") is not None:
+                return True
+            if x.get("k") == "call" and short(x.get("name") or "") in ("min",) and any(small(a) for a in x.get("args", [])):
+                return True
+            return x.get("k") in ("ref", "member", "call") and (x.get("bits") or 64) <= 32
+        if small(a0):
+            return True, "%s(%s): built from constants, values of at most 32 bits and sizes of existing containers - below max_size()" % (nm, fmt(a0)[:40])
         return False, "the amount `%s` is a caller-supplied number: above max_size() it throws std::length_error before a single token is looked at" % (fmt(a0)[:40] if a0 is not None else "?")
     if nm in ("compare", "erase", "replace", "insert", "copy"):
         # basic_string::f(pos, ...) throws out_of_range only for pos > size(): position 0 is always valid
